@@ -8,6 +8,12 @@ def run(ctx):
              "s18_wfcb_retry_submit",
              {"nodes": [{"k": "step", "fail": 2, "max": 3, "strategy": "pkg", "delay": 2}, {"k": "step", "fail": -1, "max": 2, "strategy": "pkg", "caught": True}]},
              {"nodes": [{"k": "step", "fail": 1, "max": 1, "caught": True}, {"k": "step", "fail": 3, "max": 3, "caught": True}]},
+             # a retrying step inside a map / parallel branch while a sibling is still running: the retry happens IN-PROCESS (the
+             # timer thread resubmits the branch), not through a new invocation
+             {"nodes": [{"k": "par", "caught": True, "branches": [[{"k": "step", "fail": -1, "max": 3, "delay": 1}],
+                                                                  [{"k": "step", "dur": 4.5}]]}, {"k": "step"}]},
+             {"nodes": [{"k": "map", "branches": [[{"k": "step"}, {"k": "step", "fail": 2, "max": 3, "delay": 1}],
+                                                  [{"k": "step", "dur": 3.2}, {"k": "step"}]]}, {"k": "wait"}]},
              # user strategies that ask for a zero / sub-second delay: the recorded delay must still be >= 1 s
              {"nodes": [{"k": "step", "fail": 1, "max": 2, "delay": 0}, {"k": "step", "sem": "AMO", "fail": 2, "max": 3, "delay": 0.4}]}]
     run_durable(ctx, model=["s01_step_wait_retry", "s06_amo_three_attempts", "s10_uncaught_failure", "s14_amo_exhaust"],
